@@ -73,10 +73,56 @@ W_MULW4  == <<16384, 1>>            \* 2^30 + 1 : * 4 wraps to 4
 W_MULW2  == <<32768, 1>>            \* 2^31 + 1 : * 2 wraps to 2
 Bigs == {W_I31MAX, W_I31, W_U32MAX, W_WRAP8, W_MULW4, W_MULW2}
 
-\* concrete values of the boundary symbols for a file of length L and a field whose exact fitting
-\* boundary is `rem` (len/rem/orig-relative symbols with orig in {1, 2, 4, 8})
+(***************************************************************************************************)
+(* Meaning of the boundary symbols.  A concrete field value is four 16-bit limbs <<l3,l2,l1,l0>>   *)
+(* (fields are 1, 2, 4 or 8 bytes wide).  Conc is used three times: the model's adversary draws    *)
+(* its values from it (Vals), the harness implements the same table (main.rs::concretise), and     *)
+(* Trace_BoundedReader re-computes every logged value from the logged (symbol, len, rem, orig,     *)
+(* width, unit), so that the inputs the verdict rests on are the ones the plan names.              *)
+(***************************************************************************************************)
+L4(n)   == <<0, 0, n \div 65536, n % 65536>>                 \* 0 <= n < 2^31
+Max0(n) == IF n < 0 THEN 0 ELSE n
+Inc4(v) == IF v[4] < 65535 THEN <<v[1], v[2], v[3], v[4] + 1>>
+           ELSE IF v[3] < 65535 THEN <<v[1], v[2], v[3] + 1, 0>>
+           ELSE IF v[2] < 65535 THEN <<v[1], v[2] + 1, 0, 0>>
+           ELSE <<(v[1] + 1) % 65536, 0, 0, 0>>
+Dec4(v) == IF v[4] > 0 THEN <<v[1], v[2], v[3], v[4] - 1>>
+           ELSE IF v[3] > 0 THEN <<v[1], v[2], v[3] - 1, 65535>>
+           ELSE IF v[2] > 0 THEN <<v[1], v[2] - 1, 65535, 65535>>
+           ELSE <<(v[1] + 65535) % 65536, 65535, 65535, 65535>>
+Mask4(v, w) == CASE w = 1 -> <<0, 0, 0, v[4] % 256>>
+                 [] w = 2 -> <<0, 0, 0, v[4]>>
+                 [] w = 4 -> <<0, 0, v[3], v[4]>>
+                 [] OTHER -> v
+Literals == [x \in {"3", "4", "5", "7", "8", "9", "15", "16", "17", "31", "32", "33", "63", "64", "255", "256"} |->
+               CASE x = "3" -> 3 [] x = "4" -> 4 [] x = "5" -> 5 [] x = "7" -> 7 [] x = "8" -> 8 [] x = "9" -> 9
+                 [] x = "15" -> 15 [] x = "16" -> 16 [] x = "17" -> 17 [] x = "31" -> 31 [] x = "32" -> 32
+                 [] x = "33" -> 33 [] x = "63" -> 63 [] x = "64" -> 64 [] x = "255" -> 255 [] x = "256" -> 256]
+\* len = file length, rem = number of `unit`-sized elements that fit behind the field's base,
+\* orig = the valid value (limbs), w = field width in bytes
+Conc(sym, len, rem, orig, w, unit) ==
+  CASE sym = "0" -> L4(0) [] sym = "1" -> L4(1) [] sym = "2" -> L4(2)
+    [] sym = "len-1" -> L4(Max0(len - 1)) [] sym = "len" -> L4(len) [] sym = "len+1" -> L4(len + 1)
+    [] sym = "rem-1" -> L4(Max0(rem - 1)) [] sym = "rem" -> L4(rem) [] sym = "rem+1" -> L4(rem + 1)
+    [] sym = "orig-1" -> Dec4(orig) [] sym = "orig+1" -> Inc4(orig)
+    [] sym = "i31max" -> (IF w >= 4 THEN <<0, 0, 32767, 65535>> ELSE IF w = 2 THEN L4(32767) ELSE L4(127))
+    [] sym = "i31"    -> (IF w >= 4 THEN <<0, 0, 32768, 0>> ELSE IF w = 2 THEN L4(32768) ELSE L4(128))
+    [] sym = "u32max" -> (IF w >= 4 THEN <<0, 0, 65535, 65535>> ELSE IF w = 2 THEN L4(65535) ELSE L4(255))
+    [] sym = "u16max" -> L4(65535) [] sym = "u16max+1" -> L4(65536)
+    [] sym = "mulwrap" -> Inc4(<<0, 0, 65536 \div unit, ((65536 % unit) * 65536) \div unit>>)   \* 2^32 / unit + 1
+    [] sym = "i63max" -> <<32767, 65535, 65535, 65535>> [] sym = "i63" -> <<32768, 0, 0, 0>>
+    [] sym = "u64max" -> <<65535, 65535, 65535, 65535>> [] sym = "u32max+1" -> <<0, 1, 0, 0>>
+    [] sym = "nonzero" -> L4(65)
+    [] sym \in DOMAIN Literals -> L4(Literals[sym])
+
+\* the model's adversary: every numeric boundary symbol for a 4-byte field of a file of length L whose
+\* fitting boundary is `rem`, with valid values 1, 3 and 9, plus the wrap-around witnesses
+W2(v) == <<v[3], v[4]>>
 NatW(S)  == {WFromNat(n) : n \in {m \in S : m >= 0}}
-Vals(L, rem) == NatW({0, 1, 2, 4, 8, rem - 1, rem, rem + 1, L - 1, L, L + 1}) \cup Bigs
+ValsOf(L, rem) == {W2(Mask4(Conc(s, L, rem, L4(o), 4, 4), 4)) : s \in NumSymbols, o \in {1, 3, 9}} \cup Bigs
+\* tabulated once (a constant: TLC caches it) -- Vals is evaluated in every header action
+ValsTab == [L \in 0..MaxLen |-> [r \in 0..(MaxLen + 1) |-> ValsOf(L, r)]]
+Vals(L, rem) == ValsTab[L][Max0(rem)]
 \* the reduced set used for nested headers (keeps the exhaustive model small)
 ValsN(L, rem) == NatW({0, 1, rem, rem + 1, L, L + 1}) \cup {W_I31, W_U32MAX, W_MULW4}
 
